@@ -168,6 +168,8 @@ fn value(p: &mut Parser<'_>, skip: Skip) -> Result<Option<Checkpoint<PointerU32>
             let c = p.checkpoint()?;
             p.bump()?;
 
+            let skip = p.count_skip();
+
             let skip = match operation(p, skip)? {
                 Some(skip) => skip,
                 None => return Ok(None),
@@ -177,6 +179,7 @@ fn value(p: &mut Parser<'_>, skip: Skip) -> Result<Option<Checkpoint<PointerU32>
                 return Ok(None);
             }
 
+            p.close_at(&c, OPERATION)?;
             Ok(Some(c))
         }
         _ => Ok(None),
@@ -201,7 +204,10 @@ pub fn operation(p: &mut Parser<'_>, mut skip: Skip) -> Result<Option<Skip>> {
 
         let (priority, operator, extra, cur_skip) = match op(p) {
             Some(out) => out,
-            None => break,
+            None => {
+                skip = p.count_skip();
+                break;
+            }
         };
 
         if std::mem::take(&mut first) {
